@@ -1,4 +1,5 @@
 import SideVerif.Drive.Sql
+import SideVerif.Proofs.Having
 open Lean
 namespace SideVerif.Drive
 open SideVerif.Sql SideVerif.Cal
@@ -20,6 +21,8 @@ def c01 (j : Json) : Except String Json := do
     let covered := match p.ctes with
       | [c] => p.fusable c && decide (p.fuse c = Spec.flat m q)
       | _ => false
+    let coveredFull := covered && decide (p.having = (Spec.metricFilters m q).map (havingOf m)) &&
+      (Spec.metricFilters m q).all havingShape
     let coveredRaw := match p.ctes with
       | [c] => p.fusableRaw c && decide (p.fuseRaw c = Spec.flatRaw m q)
       | _ => false
@@ -29,6 +32,7 @@ def c01 (j : Json) : Except String Json := do
       ("body", rowsJson p.columns (p.body db)),
       ("spec_body", rowsJson cols specBody),
       ("spec_columns", jstrs cols),
-      ("covered", covered), ("covered_raw", coveredRaw)])
+      ("covered", covered), ("covered_raw", coveredRaw), ("covered_full", coveredFull),
+      ("n_metric_filters", (Spec.metricFilters m q).length)])
 
 end SideVerif.Drive
